@@ -11,8 +11,14 @@ package encryption
 //@   assigns nothing
 //@   ensures len(h) == 32 && cap(h) >= 32 && fresh(h)
 
+// HashStr: hex(SHA3-256(text)) as a mathematical function of the text; collision freedom is an
+// assumption (A-hash), used only where a contract says so.
+//@ ufun HashStr(s Str) Str
+//@ axiom hash-injective: forall x Str, y Str :: HashStr(x) == HashStr(y) ==> x == y
+
 //@ func Hash returns (s)
 //@   trusted
 //@   requires data is []byte || data is string || data is HashBytes      #known-type
 //@   assigns nothing
 //@   ensures len(s) == 64
+//@   ensures data is string ==> s == HashStr(data.(string))
